@@ -544,3 +544,131 @@ def refine(prop, rec, cfg=None, max_report=3):
         if d:
             bad.append((i, d[:6]))
     return len(steps), bad, stats
+
+
+# ------------------------------------------------------------------ scenarios shared by the property checks
+def _almgsi(phs, loaded, seed, needle=False):
+    import random
+    vlib.use_repo()
+    from kawin.tests.datasets import ALMGSI_DB
+    from kawin.thermo import MulticomponentThermodynamics
+    from kawin.precipitation import PrecipitateModel, VolumeParameter
+    allph = ['MGSI_B_P', 'MG5SI6_B_DP', 'B_PRIME_L']
+    gamma = {'MGSI_B_P': 0.18, 'MG5SI6_B_DP': 0.084, 'B_PRIME_L': 0.18}
+    r = random.Random(seed)
+    if 'almgsi' not in _TH:
+        _TH['almgsi'] = MulticomponentThermodynamics(ALMGSI_DB, ['AL', 'MG', 'SI'], ['FCC_A1'] + allph, drivingForceMethod='tangent')
+    m = PrecipitateModel(phases=phs, elements=['MG', 'SI'])
+    m.setPBMParameters(cMin=1e-10, cMax=1e-8, bins=75, minBins=50, maxBins=100)
+    m.setInitialComposition([0.0072, 0.0057])
+    m.setVolumeAlpha(1e-5, VolumeParameter.MOLAR_VOLUME, 4)
+    m.setTemperature(250 + 273.15)
+    m.setNucleationDensity(grainSize=1, dislocationDensity=1e15)
+    for p in phs:
+        m.setInterfacialEnergy(gamma[p], phase=p); m.setVolumeBeta(1e-5, VolumeParameter.MOLAR_VOLUME, 4, phase=p)
+        m.setNucleationSite(r.choice(['dislocations', 'bulk']), phase=p)
+    if needle:
+        m.setPBMParameters(cMin=1e-10, cMax=3e-9, bins=20, minBins=14, maxBins=28)
+        pp = m.precipitateParameters[m.phaseIndex('MG5SI6_B_DP')]
+        pp.strainEnergy.setElasticConstants(108e9, 61.3e9, 28.5e9); pp.strainEnergy.setEigenstrain([0.035, 0.035, 0.002])
+        pp.shapeFactor.setPrecipitateShape('needle'); pp.calculateAspectRatio = True
+    m.setThermodynamics(_TH['almgsi'], removeCache=False)
+    m.constraints.dtScale = 0.1
+    if loaded:
+        m.setPBMParameters(cMin=1e-10, cMax=6e-9, bins=75, minBins=50, maxBins=100)
+        m.setup()
+        for p in phs:
+            r0 = r.uniform(1.2e-9, 3e-9); sg = r.uniform(0.25, 0.35); N = r.uniform(3e-4, 1.2e-3) / (4.19 * r0 ** 3)
+
+            def f(R, r0=r0, sg=sg, N=N):
+                w = 1 / (R * sg * np.sqrt(2 * np.pi)) * np.exp(-np.log(R / r0) ** 2 / (2 * sg ** 2))
+                return N * w / np.sum(w)
+            m.PBM[m.phaseIndex(p)].LoadDistributionFunction(f)
+    return m
+
+
+_TH = {}
+
+
+def scenario(name, rng):
+    """(model, simulated time, step cap) — real kawin models on the shipped databases"""
+    import kwnruns
+    small = dict(bins=40, minBins=30, maxBins=60, cMax=1.5e-9)
+    if name == 'alzr-small-grid':
+        return kwnruns.build_binary(x0=rng.uniform(3.5e-3, 5e-3), **small), 3600 * 5
+    if name == 'alzr':
+        return kwnruns.build_binary(x0=rng.uniform(3e-3, 5e-3), T=rng.uniform(700, 740)), 3600 * 5
+    if name == 'alzr-nodiff':
+        return kwnruns.build_binary(infinite=False, vratio=rng.choice([1.0, 1.2]), **small), 3600 * 5
+    if name == 'alzr-loaded':
+        return kwnruns.build_loaded_binary(rng, vratio=rng.choice([1.0, 1.3])), 3600 * 5
+    if name == 'alzr-noniso':
+        m = kwnruns.build_binary(**small)
+        T0 = rng.uniform(715, 730)
+        m.setTemperature([0, 0.05, 0.1, 0.2], [T0, T0 + rng.uniform(8, 25), T0 - rng.uniform(10, 30), T0 - 30])
+        return m, 3600 * 0.2
+    if name == 'alzr-slow-ramp':
+        m = kwnruns.build_binary(**small)
+        T0 = rng.uniform(715, 730); rate = rng.choice([-1, 1]) * rng.uniform(0.5, 3)
+        m.setTemperature(lambda t, T0=T0, rate=rate: T0 + rate * t / 60.0)
+        return m, 3600 * 0.2
+    if name.startswith('alzr-site:'):
+        site = name.split(':', 1)[1]
+        kw = dict(gbEnergy=rng.uniform(0.04, 0.1)) if site.startswith('grain') else {}
+        return kwnruns.build_binary(site=site, x0=rng.uniform(6e-3, 9e-3), **small, **kw), 3600 * 5
+    if name.startswith('alzr-shape:'):
+        return kwnruns.build_binary(shape=name.split(':', 1)[1], ratio=rng.choice([1, 2, 3]), **small), 3600 * 5
+    if name == 'nicral':
+        return kwnruns.build_ternary(), 3600 * 10
+    if name == 'almgsi-2phase':
+        return _almgsi(['MGSI_B_P', 'MG5SI6_B_DP'], False, rng.getrandbits(20)), 3600 * 50
+    if name == 'almgsi-2phase-loaded':
+        return _almgsi(rng.choice([['MGSI_B_P', 'MG5SI6_B_DP'], ['MG5SI6_B_DP', 'B_PRIME_L']]), True, rng.getrandbits(20)), 3600 * 50
+    if name == 'almgsi-needle':
+        return _almgsi(['MG5SI6_B_DP', 'MGSI_B_P'], False, rng.getrandbits(20), needle=True), 3600 * 50
+    raise KeyError(name)
+
+
+def refine_scenarios(ctx, res, prop, plan, observer=None):
+    """plan: list of (scenario name, step cap).  Runs each real model with the recorder attached (explicit Euler), replays every
+    accepted step through the composed Lean model `KWNFull.eulerStep` (driver of `prop`) and records a disagreement for every
+    step whose exit state differs.  Returns the list of (name, model) for further oracle checks by the caller."""
+    import warnings
+    import kwnruns
+    done = []
+    for name, cap in plan:
+        with warnings.catch_warnings():
+            warnings.simplefilter('ignore')
+            ok, out = vlib.guarded(res, 'kwn-step-refinement:' + name, dict(scenario=name), _one, ctx, res, prop, name, cap, observer)
+        if ok and out is not None:
+            done.append((name, out))
+    return done
+
+
+def _one(ctx, res, prop, name, cap, observer):
+    import kwnruns
+    m, simt = scenario(name, ctx.rng)
+    rec = attach(m)
+    try:
+        try:
+            kwnruns.run(m, simt, solver='euler', max_steps=cap, observer=observer)
+        except kwnruns.StopRun:
+            pass
+        cfg = config(m)
+        if not getattr(ctx, 'driver_ok', True):
+            return m
+        n, bad, stats = refine(prop, rec, cfg)
+    finally:
+        detach(rec)
+    res.traces += 1
+    res.count('composed-step:%s:steps' % name, n)
+    for k in ('extended', 'remeshed', 'lookup_rebuilt', 'nucleating'):
+        if stats[k]:
+            res.count('composed-step:%s:%s' % (name, k), stats[k])
+    res.case(('composed-step', name, n), n > 0)
+    for i, d in bad[:3]:
+        res.disagree('composed KWN step (KWNFull.eulerStep) vs implementation, scenario %s, accepted step %d' % (name, i),
+                     dict(scenario=name, step=i, seed=ctx.seed), [(w, a) for w, a, b in d], [(w, b) for w, a, b in d])
+    if len(bad) > 3:
+        res.count('composed-step:%s:disagreeing-steps' % name, len(bad))
+    return m
